@@ -234,6 +234,31 @@ def run_isolation(a):
         common.rmtree(root)
 
 
+def miri_screen(a):
+    """supplementary screen (thorough tier): the analysis layer on one exotic input under the Miri interpreter"""
+    idx, files = a
+    import subprocess
+    crate = os.path.join(common.TARGET, "driver_crate_" + common._repo_tag())
+    root = common.scratch("c15m")
+    try:
+        common.write_tree(os.path.join(root, "src"), files)
+        env = dict(os.environ, MIRIFLAGS="-Zmiri-disable-isolation", CARGO_TARGET_DIR=os.path.join(common.TARGET, "miri"), CARGO_NET_OFFLINE="true")
+        try:
+            p = subprocess.run(["cargo", "+nightly", "miri", "run", "--offline", "--manifest-path", os.path.join(crate, "Cargo.toml"), "--", "analyze", os.path.join(root, "src")],
+                               env=env, capture_output=True, text=True, timeout=900)
+        except subprocess.TimeoutExpired:
+            return {"status": "timeout"}
+        if "Undefined Behavior" in p.stderr:
+            return {"status": "ub", "detail": p.stderr[-600:], "files": files}
+        if "RESULT panic" in p.stdout or "panicked at" in p.stderr:
+            return {"status": "panic", "detail": p.stderr[-400:], "files": files}
+        if "RESULT ok" in p.stdout or "RESULT err" in p.stdout:
+            return {"status": "ok"}
+        return {"status": "unavailable", "detail": p.stderr[-300:]}
+    finally:
+        common.rmtree(root)
+
+
 def mutate(rnd, text):
     if not text:
         return text
@@ -325,6 +350,30 @@ def run(tier):
         v.count("isolation_projects")
         for (sig, what, files) in r["viol"]:
             v.violation(sig, what, {"files": [[p, t] for (p, t) in files]})
+    if tier == "thorough":
+        # release build (no overflow checks / debug assertions: other code paths) on a sample, and the Miri screen
+        try:
+            rel = common.build_cli_release()
+            rjobs = []
+            for k in range(0, min(len(gen_items), 3000), 10):
+                rjobs.append((rel, drv, "generated-release", gen_items[k:k + 10], "zod" if k % 20 else "none", "cli"))
+            for (job, r) in zip(rjobs, common.pmap(run_batch, rjobs, chunksize=1)):
+                v.evaluations += r["n"]
+                v.count("inputs_generated_release_build", r["n"])
+                for (label, cls, err, files) in r["bad"]:
+                    if cls != "timeout":
+                        v.violation("C15 abnormal-termination %s (release build)" % cls, "%s: %s | %s" % (label, cls, err.strip()[-200:]), {"files": [[p2, t2] for (p2, t2) in files], "build": "release"})
+        except common.Inconclusive as e:
+            v.extra["release_build"] = "unavailable: %s" % str(e)[:200]
+        mj = [(i, exotic_project(random.Random(common.seed() * 77 + i), i)) for i in range(32)]
+        statuses = {}
+        for r in common.pmap(miri_screen, mj, workers=8):
+            statuses[r["status"]] = statuses.get(r["status"], 0) + 1
+            if r["status"] == "ub":
+                v.violation("C15 miri-undefined-behaviour", r["detail"], {"files": [[p2, t2] for (p2, t2) in r["files"]]})
+            elif r["status"] == "panic":
+                v.violation("C15 abnormal-termination panic (under miri)", r["detail"], {"files": [[p2, t2] for (p2, t2) in r["files"]]})
+        v.extra["miri_screen"] = statuses
     v.samples = [{"class": "generated", "example": gen_items[0][1][0][1][:400]}, {"class": "corpus", "files": [c[0] for c in citems[:3]]},
                  {"class": "non-rust", "example": NON_RUST[8]}]
     v.extra["corpus_files_available"] = len(corpus)
